@@ -355,9 +355,42 @@ Theorem shuffle_wiring_code : forall g inv mc init env st roots,
                       wired_shuffle g inv init (sstore st) t (get_node g (last (tslices t) i)) d td)).
 Proof.
   intros g inv mc init env st roots Hwf Hinit Hc id t Hid Ht.
-  destruct (shuffle_wiring_top g inv mc result_shuffle_fixed init env st roots Hwf Hinit Hc id t Hid Ht)
+  destruct (shuffle_wiring_top g inv mc code_config init env st roots Hwf Hinit Hc id t Hid Ht)
     as [R|(i & A & B & W)]; [now left|right].
   exists i. split; [auto|]. split; [auto|]. destruct W as [W|[L W]]; [now left|right].
-  split; [auto|]. intros j d td Hd Htd S. apply (W j d td Hd Htd S). left. exact code_result_shuffle_fixed.
+  split; [auto|]. intros j d td Hd Htd S. apply (W j d td Hd Htd S). left. exact code_config_partitioned.
 Qed.
 
+
+(* ================= names across invocations ================= *)
+(* every task created by invocation [inv] performs an operation whose name starts
+   with "inv<inv>_" -- pipelines and, since 3babbc3, re-shuffle tasks alike *)
+Theorem ops_carry_invocation : forall fixed g inv mc init env st roots,
+  cfg_named_by_inv fixed = true -> wf_dag g ->
+  compile_gen fixed g inv mc init env = COk st roots ->
+  forall t, In t (skipn (List.length init) (sstore st)) -> prefixed inv (top t).
+Proof.
+  intros fixed g inv mc init env st roots Hn Hwf Hc t Ht.
+  assert (Hlt : pred (List.length g) < S (List.length g)) by lia.
+  destruct (compile_prefixed g inv mc fixed Hwf Hn _ _ _ _ _ _ Hlt Hc) as (a & E & F).
+  simpl in E. rewrite E, skipn_app, skipn_all, Nat.sub_diag in Ht. simpl in Ht.
+  rewrite Forall_forall in F. auto.
+Qed.
+
+(* hence two invocations with distinct indices never mint the same operation
+   name, whatever they compile and whatever Results they share: a task store
+   keyed by operation name and shard cannot confuse their outputs *)
+Theorem ops_disjoint_across_invocations :
+  forall fixed g g' i j mc mc' init init' env env' st st' roots roots',
+  cfg_named_by_inv fixed = true -> wf_dag g -> wf_dag g' ->
+  compile_gen fixed g i mc init env = COk st roots ->
+  compile_gen fixed g' j mc' init' env' = COk st' roots' ->
+  i <> j ->
+  forall t t', In t (skipn (List.length init) (sstore st)) ->
+               In t' (skipn (List.length init') (sstore st')) -> top t <> top t'.
+Proof.
+  intros fixed g g' i j mc mc' init init' env env' st st' roots roots' Hn Hwf Hwf' Hc Hc' Hij t t' Ht Ht' E.
+  apply Hij. apply (prefixed_disjoint i j (top t)).
+  - exact (ops_carry_invocation fixed g i mc init env st roots Hn Hwf Hc t Ht).
+  - rewrite E. exact (ops_carry_invocation fixed g' j mc' init' env' st' roots' Hn Hwf' Hc' t' Ht').
+Qed.
